@@ -2,6 +2,7 @@
   C14 — pod strings: NUL-padded fixed buffer that round-trips every fitting string.
 -/
 import Stevia.Proofs.StrState
+import Stevia.Proofs.GenStr
 
 namespace Stevia.C14
 open Stevia
@@ -37,5 +38,16 @@ theorem load_own_bytes (N : Nat) (v : ByteArray) (hv : v.size = N) : Pod.load N 
   rcases Pod.load_spec N v with ⟨h1, _⟩ | ⟨_, h2, _⟩
   · omega
   · rw [h2, ← hv, ByteArray.extract_zero_size]
+
+/-- Tie through the translator (`Stevia.GenS.*`, regenerated from `pod_str.rs` on every run): the translated
+    `From<&str>`, `copy_from_slice`, `copy_from_str` and `as_str` are the model's `ofStr` / `ofBytes` / `asStr` (they
+    never panic on a value of `N` bytes). -/
+theorem translated_pod_str_is_the_model (W P N : Nat) (v src : ByteArray) (hv : v.size = N) (s : String) :
+    GenS.from_str W P N s = some (PodStr.ofStr N s) ∧
+    GenS.copy_from_slice W P N v src = some (PodStr.ofBytes N src) ∧
+    GenS.copy_from_str W P N v s = some (PodStr.ofStr N s) ∧
+    GenS.as_str W P N v = some (PodStr.asStr v) :=
+  ⟨GenS.from_str_eq W P N s, GenS.copy_from_slice_eq W P N v hv src, GenS.copy_from_str_eq W P N v hv s,
+   GenS.as_str_eq W P N v hv⟩
 
 end Stevia.C14
